@@ -359,6 +359,17 @@ func (d *Device) Serve() {
 				// The device refuses the command: nothing is executed.
 				s.Send(l + "\n" + errText[kind] + d.prompt())
 				continue
+			case "warning-then-error":
+				// A warning the tool tolerates, followed by the refusal.
+				w := "WARNING: something harmless happened (injected)\n"
+				if kind == "ASA" && (strings.HasPrefix(l, "access-list ") || strings.HasPrefix(l, "no access-list ")) {
+					w = "WARNING: Same object-group is used more than once in one config line\n"
+				}
+				if kind == "IOS" {
+					w = ""
+				}
+				s.Send(l + "\n" + w + errText[kind] + d.prompt())
+				continue
 			case "garbage-output":
 				s.Send(l + "\n" + "%$&# unexpected text (fault injected)\n" + d.prompt())
 				continue
